@@ -140,10 +140,23 @@ def writeContextList (u : Option String) (ctxs : List ContextCalibrator) : LoadM
     | .ok xs => .ok [mkEl u "ContextCalibratorList" [] xs]
     | .error e => .error e
 
+
 /-- `bytes.hex()`: two lower-case hexadecimal digits per byte. -/
 def hexDigit (n : Nat) : Char := if n < 10 then Char.ofNat (48 + n) else Char.ofNat (87 + n)
 
 def bytesToHex (t : Bytes) : String := String.ofList (t.flatMap (fun b => [hexDigit (b.toNat / 16), hexDigit (b.toNat % 16)]))
+
+/-- The `<LinearAdjustment>` child of a `<DynamicValue>`, when the object has one. -/
+def adjKids (u : Option String) (adj : Option LinAdj) : List XmlNode :=
+  match adj with | some a => [writeLinAdj u a] | none => []
+
+/-- What follows the size specification inside a string encoding's size element: `<LeadingSize>` when the object has a
+    non-zero one, `<TerminationChar>` (hex) when it has a non-empty one. -/
+def tailKids (u : Option String) (lead : Option Int) (term : Option Bytes) : List XmlNode :=
+  (if optTruthy lead then [mkEl u "LeadingSize" [("sizeInBitsOfSizeTag", toString (lead.getD 0))] []] else []) ++
+  (match term with
+   | some t => if t.isEmpty then [] else [mkEl u "TerminationChar" [] [] (some (bytesToHex t))]
+   | none => [])
 
 def writeEncoding (u : Option String) : Encoding → LoadM XmlNode
   | .num e => do
@@ -157,18 +170,12 @@ def writeEncoding (u : Option String) : Encoding → LoadM XmlNode
       else if strTruthy e.dynRef then
         pure (mkEl u "Variable" [] [mkEl u "DynamicValue" []
           ([writeParamInstanceRef u (e.dynRef.getD "") e.useCal] ++
-           (match e.adjuster with | some a => [writeLinAdj u a] | none => []))])
+           adjKids u e.adjuster)])
       else if listTruthy e.lookup then do
         pure (mkEl u "Variable" [] [mkEl u "DiscreteLookupList" [] (← (e.lookup.getD []).mapM (writeDiscreteLookup u))])
       else throw Err.value
-    let lead := if optTruthy e.leadingSize
-      then [mkEl u "LeadingSize" [("sizeInBitsOfSizeTag", toString (e.leadingSize.getD 0))] []] else []
-    let term := match e.termChar with
-      | some t => if t.isEmpty then [] else
-        [mkEl u "TerminationChar" [] [] (some (bytesToHex t))]
-      | none => []
     let sizeEl := match sizeEl with
-      | .elem n t a tx c => XmlNode.elem n t a tx (c ++ lead ++ term)
+      | .elem n t a tx c => XmlNode.elem n t a tx (c ++ tailKids u e.leadingSize e.termChar)
       | x => x
     -- the byte order of a multi-byte encoding is written when the object recorded one
     let attrs := [("encoding", e.encoding)] ++
@@ -181,7 +188,7 @@ def writeEncoding (u : Option String) : Encoding → LoadM XmlNode
     else
       let dv := if strTruthy e.sizeRef then
           [mkEl u "DynamicValue" [] ([writeParamInstanceRef u (e.sizeRef.getD "") e.useCal] ++
-            (match e.adjuster with | some a => [writeLinAdj u a] | none => []))]
+            adjKids u e.adjuster)]
         else []
       let dl ← if listTruthy e.lookup then do
           pure [mkEl u "DiscreteLookupList" [] (← (e.lookup.getD []).mapM (writeDiscreteLookup u))]
